@@ -1,4 +1,5 @@
 import ShredModel.Lemmas.ParSeqShape
+import ShredModel.Lemmas.ParSeqSetup
 /-!
 # C16 — Par/Seq trees: structure is honoured, conflicts are rejected in debug builds
 
@@ -122,6 +123,104 @@ theorem reads_extends (decl : Nat → Decl) (t : PS) (acc : List ResId) :
 leaf order. -/
 theorem setup_reaches (t : PS) : setupOrder t = t.leaves := by
   simp [setupOrder, setupAcc_eq]
+
+/-! ### whose accessor: the leaf's own
+
+The `decl` of the theorems above is, for the real crate, `declOf spec`: what `self.accessor()`
+of the leaf system returns — the accessor the system hands out when it overrides
+`System::accessor`, and only otherwise the default of its accessor type (`try_new()`; that is
+the `StaticAccessor` of static system data). -/
+
+/-- leaves used by the examples: 0 dynamic without default, 1 dynamic whose accessor type has
+an (empty) default, 2 static data (`Read<A>`-like: nothing overridden) -/
+def exSpec : Nat → LeafSpec
+  | 0 => ⟨none, some ⟨[⟨0, 0⟩], [⟨1, 0⟩], 0⟩, [⟨0, 0⟩, ⟨1, 0⟩]⟩
+  | 1 => ⟨some ⟨[], [], 0⟩, some ⟨[⟨0, 0⟩], [⟨1, 0⟩], 0⟩, [⟨0, 0⟩, ⟨1, 0⟩]⟩
+  | _ => ⟨some ⟨[⟨2, 0⟩], [], 0⟩, none, [⟨2, 0⟩]⟩
+
+/-- **C16 (a leaf reports its own accessor).** A leaf that overrides `System::accessor` reports
+exactly that accessor's reads and writes — whatever `try_new()` of its accessor type would
+return (nothing, an empty default, anything else). -/
+theorem leaf_reports_own_accessor (spec : Nat → LeafSpec) (s : Nat) (d : Decl)
+    (h : (spec s).own = some d) :
+    reads (declOf spec) (.leaf s) = d.reads ∧ writes (declOf spec) (.leaf s) = d.writes := by
+  simp [reads, writes, readsAcc, writesAcc, declOf_own h]
+
+/-- a leaf that does not override it reports the default accessor (static system data) -/
+theorem leaf_reports_default_accessor (spec : Nat → LeafSpec) (s : Nat) (d : Decl)
+    (ho : (spec s).own = none) (h : (spec s).tryNew = some d) :
+    reads (declOf spec) (.leaf s) = d.reads ∧ writes (declOf spec) (.leaf s) = d.writes := by
+  simp [reads, writes, readsAcc, writesAcc, declOf_default ho h]
+
+/-- the leaf with an empty default still reports what it was configured with; the static leaf
+reports its type's list -/
+example : reads (declOf exSpec) (.leaf 1) = [⟨0, 0⟩] ∧ writes (declOf exSpec) (.leaf 1) = [⟨1, 0⟩] :=
+  leaf_reports_own_accessor exSpec 1 _ rfl
+example : reads (declOf exSpec) (.leaf 2) = [⟨2, 0⟩] := (leaf_reports_default_accessor exSpec 2 _ rfl rfl).1
+
+/-- **C16 (reads = union of the leaves' own accessors).** For every node of every tree whose
+leaves override `System::accessor` (`own x` is what leaf `x` hands out): the node reports the
+concatenation of those accessors' lists, defaults of the accessor types play no role. -/
+theorem node_reports_own_accessors (spec : Nat → LeafSpec) (t : PS) (own : Nat → Decl)
+    (h : ∀ x, x ∈ t.leaves → (spec x).own = some (own x)) :
+    reads (declOf spec) t = t.leaves.flatMap (fun x => (own x).reads)
+      ∧ writes (declOf spec) t = t.leaves.flatMap (fun x => (own x).writes) := by
+  rw [reads_eq, writes_eq]
+  exact ⟨flatMap_congr_mem _ _ _ (fun x hx => by rw [declOf_own (h x hx)]),
+    flatMap_congr_mem _ _ _ (fun x hx => by rw [declOf_own (h x hx)])⟩
+
+/-- … and so the debug check of `Par::with` fires exactly on a conflict between those own
+accessors: two leaves whose accessor type defaults to "nothing" are still told apart -/
+theorem with_check_own_accessors (spec : Nat → LeafSpec) (h sys : PS) (own : Nat → Decl)
+    (hh : ∀ x, x ∈ h.leaves → (spec x).own = some (own x))
+    (hs : ∀ x, x ∈ sys.leaves → (spec x).own = some (own x)) :
+    withCheck (declOf spec) h sys = false ↔
+      ∃ x, x ∈ h.leaves ∧ ∃ y, y ∈ sys.leaves ∧ conflictsD (own x) (own y) := by
+  rw [withCheck_false_iff]
+  constructor
+  · rintro ⟨x, hx, y, hy, hc⟩
+    rw [declOf_own (hh x hx), declOf_own (hs y hy)] at hc
+    exact ⟨x, hx, y, hy, hc⟩
+  · rintro ⟨x, hx, y, hy, hc⟩
+    refine ⟨x, hx, y, hy, ?_⟩
+    rw [declOf_own (hh x hx), declOf_own (hs y hy)]
+    exact hc
+
+/-- both write 1.0: rejected although leaf 1's accessor type has an empty default -/
+example : withCheck (declOf exSpec) (.leaf 0) (.leaf 1) = false := by decide
+example : withCheck (declOf exSpec) (.leaf 1) (.leaf 2) = true := by decide
+
+/-! ### every `setup` call reaches every leaf -/
+
+/-- **C16 (every setup call reaches every leaf).** Whatever sequence of `setup` calls is made
+on one `ParSeq` — through `ParSeq::setup` or `RunNow::setup`, on whatever worlds, in whatever
+order — every single call runs the setup of every leaf exactly once, in leaf order, and the
+world it was handed afterwards holds exactly what it held before plus what the leaves create
+(nothing removed, nothing reordered). -/
+theorem every_setup_reaches (d : Disp) (creates : Nat → List ResId)
+    (calls : List (Via × List ResId)) :
+    (d.setups creates calls).length = calls.length ∧
+    ∀ i (hi : i < calls.length) (ho : i < (d.setups creates calls).length),
+      ((d.setups creates calls)[i]).1 = d.run.leaves
+      ∧ (∀ r, r ∈ ((d.setups creates calls)[i]).2 ↔
+            r ∈ (calls[i]).2 ∨ ∃ x, x ∈ d.run.leaves ∧ r ∈ creates x)
+      ∧ ∃ ext, ((d.setups creates calls)[i]).2 = (calls[i]).2 ++ ext := by
+  refine ⟨by simp [setups_eq], ?_⟩
+  intro i hi ho
+  have hg : (d.setups creates calls)[i] = (d.run.leaves, setupWorldAcc creates d.run (calls[i]).2) := by
+    simp [setups_eq]
+  rw [hg]
+  exact ⟨rfl, fun r => mem_setupWorldAcc creates d.run _ r, setupWorldAcc_extends creates d.run _⟩
+
+/-- one call: the dispatcher is the same afterwards (there is nothing to remember) -/
+theorem setup_is_stateless (d : Disp) (v : Via) (creates : Nat → List ResId) (w : List ResId) :
+    (d.setup v creates w).1 = d ∧ (d.setup v creates w).2.1 = d.run.leaves := by
+  simp [Disp.setup, setupOrder, setupAcc_eq]
+
+/-- second call on a fresh (empty) world through the other entry point: same hooks, and the
+resources of all three leaves are created again -/
+example : (Disp.mk ex).setups (fun x => (exSpec x).creates) [(.inherent, [⟨0, 0⟩, ⟨1, 0⟩, ⟨2, 0⟩]), (.runNow, [])]
+    = [([0, 1, 2], [⟨0, 0⟩, ⟨1, 0⟩, ⟨2, 0⟩]), ([0, 1, 2], [⟨0, 0⟩, ⟨1, 0⟩, ⟨2, 0⟩])] := by decide
 
 /-! ### the debug check of `Par::with` -/
 
@@ -269,6 +368,12 @@ end Shred
 #print axioms Shred.PS.writes_union
 #print axioms Shred.PS.reads_extends
 #print axioms Shred.PS.setup_reaches
+#print axioms Shred.PS.leaf_reports_own_accessor
+#print axioms Shred.PS.leaf_reports_default_accessor
+#print axioms Shred.PS.node_reports_own_accessors
+#print axioms Shred.PS.with_check_own_accessors
+#print axioms Shred.PS.every_setup_reaches
+#print axioms Shred.PS.setup_is_stateless
 #print axioms Shred.PS.with_check_iff
 #print axioms Shred.PS.parWith_panics_iff
 #print axioms Shred.PS.parOf_spec
